@@ -94,7 +94,7 @@ def expected(pre, envname, loadable):
 def configurations(tier):
     mods = [m for _, m in REGISTRY]
     pres = [()] + [(m,) for m in mods]
-    pairs = list(itertools.combinations(mods, 2))
+    pairs = list(itertools.permutations(mods, 2))      # both import orders
     # unknown names include proper substrings / superstrings of known ones
     envs = [None] + [n for n, _ in REGISTRY] + ["nosuchbackend", "zkif", "js", "snark", "backend", "qaptools2", "Snarkjs"]
     loads = [dict(flatbuffers=f, qaptools=q, libsnark=l) for f in (True, False) for q in (True, False) for l in (True, False)]
